@@ -45,7 +45,7 @@ def run_program(ctx, st, prog, tag):
     s = cspuz.Solver()
     vars_ = progs.declare(s, prog["decls"])
     try:
-        if ctx.rng.random() < 0.5:
+        if ctx.rng.random() < 0.7:
             with progs.shared():  # equal sub-terms are ONE object, as in `a = x & y; ensure(a | z, a.then(w))`
                 built = [progs.build(c, vars_) for c in prog["constraints"]]
             ctx.count("c01.programs_with_shared_subterms")
